@@ -192,6 +192,8 @@ def glue_events(names: int, prefixes: int, datatypes: int, npfx: int, nnames: in
     if datatypes:
         for i in range(datatypes + 2):  # two more than the table: consecutive evictions
             evs.append(("lit", f"http://p0/n{i}"))
+    if datatypes:
+        evs.append(("langlit",))  # "x"@en given together with rdf:langString: no table entry
     evs.append(("opt",))  # the writer repeats its (identical) options row mid-stream
     if prefixes:
         # one row that holds an IRI and a quoted triple: more IRIs per row than any plain row
@@ -224,6 +226,16 @@ def step2(st: Glue, ev) -> list[str]:
             got = st.dec.decode_iri(msg)
             if got._iri != ev[1]:
                 fails.append(f"IRI {ev[1]!r} decodes to {got._iri!r}")
+        elif ev[0] == "langlit":
+            msg = jelly.RdfLiteral()
+            rows = st.enc.encode_literal(
+                lex="x", language="en",
+                datatype="http://www.w3.org/1999/02/22-rdf-syntax-ns#langString", literal=msg)
+            for r in rows:
+                st.dec.decode_row(getattr(r, r.WhichOneof("row")))
+            got = st.dec.decode_literal(msg)
+            if got._langtag != "en" or got._lex != "x":
+                fails.append(f"language-tagged literal decodes to {got!r}")
         elif ev[0] == "qrow":
             from pyjelly.errors import JellyConformanceError  # noqa: PLC0415
             from pyjelly.integrations.generic import generic_sink as gs  # noqa: PLC0415
@@ -422,9 +434,40 @@ def run_grouped_restart(case: dict) -> list[str]:
     return [m for _, m in fails]
 
 
+def run_recut(case: dict) -> list[str]:
+    """An evicting stream cut so that every row is a frame of its own (lookup entries travel in
+    frames without any statement): both integrations must still resolve every reference."""
+    from mc import drivers as DR  # noqa: PLC0415
+    from mc import jwire  # noqa: PLC0415
+    from mc import terms as T  # noqa: PLC0415
+
+    DR.ensure_rdflib_plugin()
+    seq, preset = declared_case(case["sub"], 8 if case["sub"] == "name" else 2)
+    seq = seq[:8]
+    data = DR.g_write(seq, "triple", DR.make_options("triple", preset, 250, True,
+                                                     generalized=False, rdf_star=False))
+    rows = [r for f in jwire.read_delimited(data) for r in f["rows"]]
+    recut = jwire.write_delimited([jwire.enc_frame([r]) for r in rows])
+    fails = []
+    for api in ("generic", "rdflib"):
+        for reader in ("flat", "grouped"):
+            try:
+                got = DR.stmts_of((DR.g_read if api == "generic" else DR.r_read)(recut, reader))
+            except Exception as e:  # noqa: BLE001
+                fails.append(f"{api} {reader}: a frame per row: {type(e).__name__}: {e}")
+                continue
+            want = T.norm_seq(seq)
+            if (set(got) != set(want)) if (api == "rdflib" and reader != "flat") else got != want:
+                fails.append(f"{api} {reader}: a frame per row decodes to other statements than "
+                             f"the same rows in one frame")
+    return fails
+
+
 def run_declared(case: dict) -> list[str]:
     if case["rule"] == "grouped-restart":
         return run_grouped_restart(case)
+    if case["rule"] == "recut":
+        return run_recut(case)
     from mc import drivers as DR  # noqa: PLC0415
     from mc import jspec  # noqa: PLC0415
     from mc import terms as T  # noqa: PLC0415
@@ -453,6 +496,9 @@ def shard4(job) -> dict:
     if rule == "grouped-restart":
         api, cls = n
         case = {"layer": 4, "rule": rule, "n": 0, "api": api, "cls": cls}
+        n = 0
+    if rule == "recut":
+        case = {"layer": 4, "rule": rule, "n": 0, "sub": n}
         n = 0
     acc.evals = n + 5
     for msg in run_declared(case):
@@ -503,6 +549,8 @@ def run(ctx) -> None:
                 jobs.append(("l4", (rule, n)))
     for api, cls in (("generic", "quad"), ("rdflib", "triple"), ("rdflib", "quad")):
         jobs.append(("l4", ("grouped-restart", (api, cls))))
+    for sub in ("name", "prefix", "datatype"):
+        jobs.append(("l4", ("recut", sub)))
     # biggest first so the pool stays busy
     def weight(j):
         if j[0] == "l1":
